@@ -1,5 +1,5 @@
 ---------------------------- MODULE MC_Grammar ----------------------------
 EXTENDS Grammar, Json
 \* one line per Call: the tokens, the productions used, the plan and the admissible outcomes
-Emit == (done' /\ ~done) => PrintT(<<"T", ToJson([toks |-> pre, trail |-> trail, muts |-> muts, junk |-> junk, allowed |-> Allowed])>>)
+Emit == (done' /\ ~done) => PrintT(<<"T", ToJson([toks |-> pre, trail |-> trail, muts |-> muts, allowed |-> Allowed])>>)
 =============================================================================
